@@ -487,10 +487,17 @@ if __name__ == "__main__":
     np.seterr(all="ignore")
     import tempfile
 
-    os.chdir(tempfile.mkdtemp(prefix="oasverif_f_"))
-    case = json.loads(sys.argv[1])
-    _p, st = trace(case)
-    print(json.dumps({k: v.tolist() for k, v in flat(st).items()}))
+    import shutil
+
+    _scratch = tempfile.mkdtemp(prefix="oasverif_f_")
+    os.chdir(_scratch)
+    try:
+        case = json.loads(sys.argv[1])
+        _p, st = trace(case)
+        print(json.dumps({k: v.tolist() for k, v in flat(st).items()}))
+    finally:
+        os.chdir("/")
+        shutil.rmtree(_scratch, ignore_errors=True)
 
 
 # ---------------------------------------------------------------------------------------------- suite workload
